@@ -358,6 +358,12 @@ type DPet struct {
 		fmt.Fprintf(&sb, "\t// :style arg\n\tArgStyle%s(Cat) DCat\n", catM)
 	}
 	sb.WriteString("}\n")
+	if t.ch(0.35) {
+		// a third interface whose receiver-form method has the name of the referenced converter (another function:
+		// a method of the source type), declared before or after the others in name order
+		fmt.Fprintf(&sb, "\n// :convergen\ntype %s interface {\n\t// :recv c\n\t%s(*Part) *DPart\n}\n", t.pick("Aaa", "Zzz", "Mid"), catM)
+		t.feat("receiver-method-named-like-referenced-converter")
+	}
 	t.files[t.name+"/setup.go"] = sb.String()
 	t.files[t.name+"/types.go"] = types
 }
